@@ -184,8 +184,18 @@ def newEvents (st : St) (s : LSys) : St × List String :=
   ({ st with printed := s.processed.length },
    [ "h " ++ joinOr (pick "H:"), "m " ++ joinOr (pick "M:"), "a " ++ joinOr (sortStrings (pick "A:")) ])
 
+/-- identity of a request / of the response to it as printed: kind, instrument, client order id -/
+def fmtIdent : ExecManager.Kind × Nat × Nat → String
+  | (.open, i, cid) => s!"open:{i}:{cid}"
+  | (.cancel, i, cid) => s!"cancel:{i}:{cid}"
+
+/-- the identities of the response events among `l`, as a sorted multiset -/
+def respLine (idents : List (ExecManager.Kind × Nat × Nat)) : String :=
+  "resp " ++ joinOr (sortStrings (idents.map fmtIdent))
+
 /-- both views of a system state, the constrained keys, and whether they agree -/
 def viewLines (k : Nat) (s : LSys) : List String :=
+  [ respLine ((accountOf s.processed).filterMap responseIdent) ] ++
   obsEng k s.eng.state ++ obsExch s.exch.x ++
   obsKeys "hnet" "hbal" k s.eng.state ++ obsKeys "net" "led" k s.eng.state ++
   [ "agree " ++ fmtBool (TradingLoop.Spec.agreeB s.eng.state s.exch.x) ]
@@ -313,14 +323,23 @@ def exchSpecLines (st : St) (s : LSys) : List String :=
   ((List.range st.k).map fun i => s!"net{i} {fmtRat (TradingLoop.Spec.net fills i)}") ++
   (ledger.zipIdx.map fun (b, a) => s!"led{a} {fmtRat b.1} {fmtRat b.2}") ++ [ "agree 1" ] ++
   -- every response has been processed: no order is tracked any more (the life cycle has closed)
-  ((List.range st.k).map fun i => s!"ord{i} ")
+  ((List.range st.k).map fun i => s!"ord{i} ") ++
+  -- claim (1), request / response conservation (oracle review C20E-H1): the responses the engine has
+  -- processed are, as a multiset of (kind, instrument, client order id), exactly the requests it sent:
+  -- one response per request, none twice, none missing
+  -- (`Props.C20E.responses_are_requests_at_quiescence`)
+  [ respLine (s.requests.map reqIdent) ]
 
 def specView : View where
   atSettle st s1 :=
     heardLines "hnet" "hbal" st.k (accountOf s1.processed) ++
     (if s1.stopped.isNone && s1.feed.isEmpty && s1.market.isEmpty && s1.pending.isEmpty
       then exchSpecLines st s1 else [])
-  atClose st how _ s3 _ _ :=
+  atClose st how s1 s3 _ _ :=
+    -- the observation taken before the close is an observation like any other (oracle review C20E-M1)
+    heardLines "hnet" "hbal" st.k (accountOf s1.processed) ++
+    (if s1.stopped.isNone && s1.feed.isEmpty && s1.market.isEmpty && s1.pending.isEmpty
+      then exchSpecLines st s1 else []) ++
     [ "res " ++ how, "shutdown_audit H:shutdown" ] ++
     heardLines "fhnet" "fhbal" st.k (accountOf s3.processed) ++ [ "own 1" ]
   built b :=
